@@ -454,6 +454,9 @@ func (e c13Engine) RunSeed(tier string, seed uint64, idx int) *core.Result {
 		masks := []int{1 + rng.Intn(255)}
 		if at < 3*size && (tier == "thorough" || rng.Chance(1, 4)) {
 			masks = []int{1, 2, 4, 8, 16, 32, 64, 128, 255}
+		} else if tier == "thorough" && n <= 2048 {
+			// small files: every single-bit flip of every byte
+			masks = []int{1, 2, 4, 8, 16, 32, 64, 128}
 		}
 		for _, m := range masks {
 			d := diskFault{Kind: "flip", At: at, Mask: m}
